@@ -339,3 +339,32 @@ V("C19", "explicit_idx_taken_is_kept", "violation", ("andes/models/group.py", " 
 V("C19", "finder_adds_without_looking_at_new_devices", "violation", ("andes/core/service.py", "            if (not valid_idx) and self.auto_find:\n                idx = mdl.find_idx(self.idx_name, (link_to, ), allow_none=True, default=None)[0]", "            if (not valid_idx) and self.auto_find and not added:\n                idx = mdl.find_idx(self.idx_name, (link_to, ), allow_none=True, default=None)[0]"), rule="C19.find-or-add")
 V("C19", "finder_no_refresh_after_add", "violation", ("andes/core/service.py", "            mdl.list2array()\n            mdl.refresh_inputs()\n", "            mdl.list2array()\n"), rule="C19.find-or-add")
 V("C19", "benign_next_idx_while_condition", "silent", ("andes/models/group.py", "            while True:\n                # IMPORTANT: automatically assigned index is 1-indexed. Namely, `GENCLS_1` is the first generator.\n                # This is because when we say, for example, `GENCLS_10`, people usually assume it starts at 1.\n                idx = model_name + '_' + str(count + 1)\n                if idx not in self._idx2model:\n                    break\n                else:\n                    count += 1\n", "            idx = model_name + '_' + str(count + 1)\n            while idx in self._idx2model:\n                count += 1\n                idx = model_name + '_' + str(count + 1)\n"))
+
+
+# ---------------- refactorings and seeded changes delivered by independent sub-agents (DESIGN section 10), kept as patches
+def _load_agent_corpus():
+    import glob
+    import json
+    import os
+    root = os.path.dirname(os.path.dirname(os.path.abspath(__file__)))
+    for d in sorted(glob.glob(os.path.join(root, "benign", "C*-*"))):
+        pid = os.path.basename(d).split("-")[0]
+        VARIANTS.append(dict(pid=pid, name="agent_refactoring_%s" % os.path.basename(d).replace("-", "_"), expect="silent", edits=[],
+                             patch=os.path.join(d, "patch.diff"), rule=None, tier="quick"))
+    for d in sorted(glob.glob(os.path.join(root, "seeded", "r*-C*-*"))):
+        cj = os.path.join(d, "checks.json")
+        if not os.path.exists(cj):
+            continue
+        try:
+            caught = json.load(open(cj)).get("caught_by", [])
+        except Exception:      # noqa
+            continue
+        for pid in caught:
+            VARIANTS.append(dict(pid=pid, name="agent_seed_%s" % os.path.basename(d).replace("-", "_"), expect="violation", edits=[],
+                                 patch=os.path.join(d, "patch.diff"), rule=None, tier="quick"))
+
+
+_load_agent_corpus()
+V("C17", "criterion_operand_not_established", "violation", (TDS, "        if self.config.criteria:\n            system.connectivity(info=False)\n", ""), rule="C17.criteria")
+V("C17", "criterion_operand_before_initialized", "violation", (TDS, "        self.initialized = True\n\n        # record the rotor angles monitored by the stability criterion (generators in the\n        # largest island); later connectivity checks after switching events update them\n        if self.config.criteria:\n            system.connectivity(info=False)\n", "        if self.config.criteria:\n            system.connectivity(info=False)\n        self.initialized = True\n"), rule="C17.criteria")
+V("C17", "criterion_operand_only_with_check_conn", "violation", (TDS, "        if self.config.criteria:\n            system.connectivity(info=False)\n", "        if self.config.criteria and self.config.check_conn:\n            system.connectivity(info=False)\n"), rule="C17.criteria")
